@@ -121,6 +121,7 @@ REI_KIND = {"gen": "gen", "ext_grid": "gen", "sgen": "sgen", "load": "load"}
 def _tame(recipe, mode, eq_type):
     """keep the recipe inside the domain get_equivalent is written for (see ASSUMPTIONS)"""
     slack_buses = set()
+    gen_buses = set()
     kind_at = {}
     out = []
     for b in recipe["buses"]:
@@ -143,6 +144,10 @@ def _tame(recipe, mode, eq_type):
             e.pop("rtf_pu", None), e.pop("xtf_pu", None)    # known finding rei/asymmetric-impedance
         if mode == "impedance-switch" and e["t"] == "switch" and e["et"] == "b" and "z_ohm" not in e:
             e["z_ohm"] = round(0.02 * recipe["buses"][e["bus"]]["vn_kv"] ** 2 / netgen.LEVELS[recipe["buses"][e["bus"]]["vn_kv"]]["s"], 6)
+        if eq_type == "rei" and mode != "rei-integrated-gens" and e["t"] == "gen" and not e.get("slack"):
+            if e["bus"] in gen_buses:           # known finding rei-gen-aggregated-from-several-gens
+                continue
+            gen_buses.add(e["bus"])
         if eq_type == "rei" and mode != "rei-mixed-bus" and e["t"] in REI_KIND:
             # one kind of REI power element per bus (several kinds at one external bus: known finding rei-eq-switch)
             if kind_at.setdefault(e["bus"], REI_KIND[e["t"]]) != REI_KIND[e["t"]]:
@@ -391,9 +396,13 @@ def facts(net, reg, case, net_eq=None):
         if (im.from_bus.isin(E) | im.to_bus.isin(E)).any():
             f.append("asymmetric-impedance-at-external-bus")
     if eq == "rei":
-        if case["kw"].get("gen_separate", True) is False and \
-                len(set(_at(net, "gen", E).bus.values) | set(_at(net, "ext_grid", E).bus.values)) > 1:
-            f.append("gen_separate=False/gens-at-several-external-buses")
+        # the REI generator of several net.gen rows gets the SUM of their numeric columns, vm_pu included
+        gen_ext = net.gen[net.gen.bus.isin(E)] if len(net.gen) else net.gen
+        integrated = case["kw"].get("gen_separate", True) is False
+        if len(gen_ext) > 1 and (integrated or gen_ext.bus.duplicated().any()):
+            f.append("rei-gen-aggregated-from-several-gens/vm_pu-summed")
+        if integrated and set(_at(net, "gen", E).bus.values) & set(_at(net, "ext_grid", E).bus.values):
+            f.append("gen_separate=False/gen-and-ext_grid-at-one-external-bus")
         if len(_at(net, "load", E, lambda t: (t.const_z_p_percent != 0) | (t.const_i_p_percent != 0) |
                    (t.const_z_q_percent != 0) | (t.const_i_q_percent != 0))):
             f.append("zip-load-in-external-area")
@@ -417,7 +426,30 @@ def facts(net, reg, case, net_eq=None):
         break
     if eq == "xward" and reg["detached_boundary"]:
         f.append("boundary-bus-without-external-neighbour")
+    if eq == "xward" and not _shunt_admittance_in(net, E):
+        f.append("external-area-without-shunt-admittance")
     return f
+
+
+def _shunt_admittance_in(net, E):
+    """does anything at / between the external buses contribute to the row sums of the admittance matrix?"""
+    if _has(net, ("shunt", "ward", "xward", "gen", "ext_grid"), E):     # xward method: PV buses get Y = 1e8
+        return True
+    ln = net.line[net.line.in_service & (net.line.from_bus.isin(E) | net.line.to_bus.isin(E))]
+    if ((ln.c_nf_per_km != 0) | (ln.g_us_per_km != 0)).any():
+        return True
+    tr = net.trafo[net.trafo.in_service & (net.trafo.hv_bus.isin(E) | net.trafo.lv_bus.isin(E))]
+    if len(tr):     # off-nominal ratio or magnetising branch
+        return True
+    t3 = net.trafo3w[net.trafo3w.in_service & (net.trafo3w.hv_bus.isin(E) | net.trafo3w.mv_bus.isin(E) | net.trafo3w.lv_bus.isin(E))]
+    if len(t3):
+        return True
+    im = net.impedance[net.impedance.in_service & (net.impedance.from_bus.isin(E) | net.impedance.to_bus.isin(E))]
+    if len(im) and (im[["gf_pu", "bf_pu", "gt_pu", "bt_pu"]].values != 0).any():
+        return True
+    if len(im) and ((im.rft_pu != im.rtf_pu) | (im.xft_pu != im.xtf_pu)).any():
+        return True
+    return False
 
 
 def _cause(net, reg, case, e):
@@ -441,7 +473,8 @@ def _cause(net, reg, case, e):
             "ValueError@grid_equivalents/ward_generation.py:_replace_external_area_by_xwards": ("slack-gen-at-boundary", "xward-element-at-boundary-bus"),
             "ValueError@grid_equivalents/ward_generation.py:_calculate_ward_and_impedance_parameters": ("fused-boundary-buses-given",),
             "ValueError@build_bus.py:_calc_pq_elements_and_add_on_ppc": ("zip-load-in-external-area",),
-            "FloatingPointError@pypower/makeYbus.py:branch_vectors": ("boundary-bus-without-external-neighbour",)}
+            "FloatingPointError@pypower/makeYbus.py:branch_vectors": ("boundary-bus-without-external-neighbour",
+                                                                      "external-area-without-shunt-admittance")}
     for k in want.get(where, ()):
         if k in f:
             return k
